@@ -10,21 +10,24 @@ import symx.harness  # noqa (puts the repo on sys.path)
 import wannierberri.w90files.bkvectors as BK
 
 PROPERTY = "C22"
-FUNCTIONS = ["wannierberri.w90files.bkvectors.BKVectors.find_G_and_neighbours", "BKVectors.get_shell_weights", "BKVectors.k_to_shells",
+FUNCTIONS = ["wannierberri.w90files.bkvectors.BKVectors.__init__ / from_kpoints / kpt_red", "wannierberri.w90files.bkvectors.BKVectors.find_G_and_neighbours", "BKVectors.get_shell_weights", "BKVectors.k_to_shells",
              "BKVectors.find_bk_vectors", "BKVectors.get_projector_shell_cart", "bkvectors.is_parallel_shell"]
 BOUNDS = dict(
     quick=dict(neighbours="meshes up to 3x2x2; k-point order = symbolic permutation (z3 integers); b-vectors = symbolic integers in the search box [-2N,2N]; "
                           "1 symbolic b with one irreducible k at an enumerated position (all meshes), 2 b's x 2 k's (meshes <=4 points), all k's (2 points)",
                weights="complete sets of linearly independent shells (harness-selected, shortest first) of 6 concrete lattices (sc, fcc, bcc, hexagonal, orthorhombic, triclinic), also with the last shell dropped, with every shell stretched by a symbolic factor, or one fully symbolic +-b shell; "
                        "LAPACK svd output = unconstrained fresh atoms u, s, vh (one-shell sets: sc, fcc, bcc) or u=1, s=1, vh fresh, which still reaches every weight vector (all sets); bk_complete_tol symbolic in [1e-8,1e-3]",
-               shells="6 lattices x meshes (1,1,1),(2,2,2),(2,2,1)/(3,2,1): kmesh_tol symbolic in [1e-9,1e-5]"),
+               shells="6 lattices x meshes (1,1,1),(2,2,2),(2,2,1)/(3,2,1): kmesh_tol symbolic in [1e-9,1e-5]",
+               object="__init__: symbolic 3x3 reciprocal lattice and weights, meshes 2x3x4, 3x1x2; from_kpoints: mono/tric/hex 2x3x4, fcc 3x2x2, bcc 2x2x3, mono 3x3x2, seeded k-point order, symbolic kmesh_tol"),
     thorough=dict(neighbours="meshes up to 4x3x2, 2 b's x 2 k's up to 6 points", weights="as quick, up to 4 shells", shells="as quick plus (3,3,3),(4,4,2)"))
 EXPLANATION = ("(a) The real find_G_and_neighbours runs on a k-point list whose order is a symbolic permutation of the mesh and on symbolic integer b-vectors; z3 (linear integer "
                "arithmetic with constant moduli) proves k+b = k_nb + G*mp for the neighbour it returns and that the 'no neighbour' exit is unreachable. "
                "(b) The real get_shell_weights runs with np.linalg.svd replaced by unconstrained atoms: on every normally returning path the returned (wk, bk_cart) satisfy "
                "||sum_b w_b b b^T - 1|| <= bk_complete_tol, wk is constant on each shell, rows of bk_cart/bk_grid stay paired. "
                "(c) The real k_to_shells / find_bk_vectors run on concrete lattices with a symbolic kmesh_tol: shells are whole (all mesh vectors of one length), closed under b->-b, "
-               "weights equal on +-b, completeness holds.")
+               "weights equal on +-b, completeness holds. (d) The real BKVectors.__init__ runs on a fully symbolic reciprocal lattice (bk_cart must equal bk_grid.(recip_lattice[i]/mp_grid[i]) identically), "
+               "and the whole from_kpoints pipeline builds the object on anisotropic meshes of monoclinic/triclinic/hexagonal/fcc/bcc lattices: the object's own bk_cart, wk, bk_grid, G, neighbours "
+               "must satisfy completeness, image, closure, whole shells and the neighbour identity.")
 ASSUMPTIONS = ["complete Gamma-centred mesh, each point once (find_G_and_neighbours)", "b-vectors inside the search box of find_bk_vectors (|b_i| <= 2 N_i)",
                "(b) only normally returning paths: the singular-value guard and the completeness guard may reject (string / RuntimeError as documented)",
                "(c) kmesh_tol in [1e-9,1e-5]; the 6 lattices x meshes of the family all possess a complete set of independent shells inside the search box (checked by the harness's own selection), so 'Could not find a complete set' counts as a violation there"]
@@ -338,7 +341,7 @@ class SvdStub(LinalgProxy):
 LATTICES = dict(
     sc=np.eye(3) * 1.7, fcc=np.array([[-1, 0, 1], [0, 1, 1], [-1, 1, 0]]) * 1.1, bcc=np.array([[1, 1, -1], [-1, 1, 1], [1, -1, 1]]) * 0.9,
     hex=np.array([[1, 0, 0], [-0.5, math.sqrt(3) / 2, 0], [0, 0, 1.6]]) * 1.3, ortho=np.diag([1.0, 1.3, 1.9]),
-    tric=np.array([[1.0, 0.1, 0.2], [0.15, 1.2, -0.1], [0.05, 0.3, 1.5]]))
+    tric=np.array([[1.0, 0.1, 0.2], [0.15, 1.2, -0.1], [0.05, 0.3, 1.5]]), mono=np.array([[1.0, 0.0, 0.0], [0.0, 1.2, 0.0], [0.45, 0.0, 1.5]]))
 
 
 def concrete_shells(name, mesh, nshell):
@@ -520,6 +523,79 @@ def case_shells(rec, name, mesh):
 
 
 # ------------------------------------------------------------------------------------------------------------
+# (d) the BKVectors object itself
+def concrete_neighbour_data(mesh, bk_grid, seed):
+    """concrete k-point list (seeded order) with its neighbour tables from the real (unshadowed) find_G_and_neighbours"""
+    pts = np.array(list(itertools.product(*[range(n) for n in mesh])))
+    order = np.random.default_rng(seed).permutation(len(pts))
+    kg = pts[order]
+    G, nb = BK.BKVectors.find_G_and_neighbours(kg / np.array(mesh)[None, :], np.array(bk_grid), np.array(mesh))
+    return kg, G, nb
+
+
+def case_object_symbolic_lattice(rec, mesh, seed):
+    """BKVectors.__init__ on a fully symbolic reciprocal lattice and symbolic weights: bk_cart must be the image of bk_grid in the basis recip_lattice[i]/mp_grid[i]"""
+    mesh = tuple(mesh)
+    bg = np.array([[1, 0, 0], [-1, 0, 0], [0, 1, 0], [0, -1, 0], [0, 0, 1], [0, 0, -1], [1, 1, 0], [-1, -1, 0], [1, -1, 1], [-1, 1, -1], [0, 2, -1], [0, -2, 1]])
+    kg, G, nb = concrete_neighbour_data(mesh, bg, seed)
+    shadow([BK], NpProxy(), print=lambda *a, **k: None)
+    L = symvec("L", (3, 3))
+    w = symvec("w", (len(bg),))
+
+    def body(rec):
+        rec.witness = lambda env: dict(test="object-sym", mesh=list(mesh), seed=seed, L=env.val(L).tolist(), w=env.val(w).tolist(), bk_grid=bg.tolist())
+        obj = BK.BKVectors(recip_lattice=L.copy(), mp_grid=np.array(mesh), wk=w.copy(), bk_grid=bg.copy(), G=G, neighbours=nb, kpt_grid=kg.copy())
+        want = sarr(np.array([[sum((int(bg[b, i]) * L[i, j] / mesh[i] for i in range(3)), SymC.of(0)) for j in range(3)] for b in range(len(bg))], dtype=object))
+        rec.eq("bk_cart == bk_grid . (recip_lattice[i] / mp_grid[i]) for every reciprocal lattice", sarr(np.asarray(obj.bk_cart, dtype=object)), want,
+               key="BKVectors.__init__: bk_cart is not the Cartesian image of bk_grid")
+        rec.eq("wk stored unchanged", sarr(np.asarray(obj.wk, dtype=object)), w, key="BKVectors.__init__: wk altered")
+        ok = np.array_equal(np.asarray(obj.bk_grid), bg) and np.allclose(np.asarray(obj.bk_red, dtype=float), bg / np.array(mesh)[None, :]) and \
+            np.allclose(np.asarray(obj.kpt_red, dtype=float), kg / np.array(mesh)[None, :]) and obj.NNB == len(bg) and obj.NK == len(kg)
+        rec.concrete("bk_grid, bk_red = bk_grid/mp, kpt_red = kpt_grid/mp, NNB, NK", bool(ok), key="BKVectors.__init__: grid attributes wrong")
+    rec.explore(body, [])
+
+
+def judge_object(mesh, rl, kpt_int, wk, bk_cart, bk_grid, G, nb):
+    msgs = check_shell_structure(mesh, rl, wk, bk_cart, bk_grid, [2 * m for m in mesh])
+    mp = np.array(mesh)
+    bg = np.asarray(bk_grid, dtype=int)
+    for ik in range(len(kpt_int)):
+        for ib in range(len(bg)):
+            j = int(nb[ik][ib])
+            if not (0 <= j < len(kpt_int)) or not np.array_equal(kpt_int[ik] + bg[ib], kpt_int[j] + np.asarray(G[ik][ib]) * mp):
+                msgs.append(f"k+b != k_nb+G*mp at k={ik} b={ib}")
+                return msgs
+    return msgs
+
+
+def case_object(rec, name, mesh, seed):
+    """the real BKVectors.from_kpoints pipeline (find_bk_vectors, find_G_and_neighbours, __init__) on a concrete lattice with an anisotropic mesh, k-points in a seeded order,
+    symbolic kmesh_tol: the OBJECT's own bk_cart, wk, bk_grid, neighbours, G must satisfy the property"""
+    shadow([BK], Np22c(linalg=Lin22c(np.linalg)), print=lambda *a, **k: None)
+    rl = LATTICES[name]
+    mesh = tuple(mesh)
+    kt = SymC.var("kmesh_tol", 1e-9, 1e-5)
+    ass = [kt.zreal() >= 1e-9, kt.zreal() <= 1e-5]
+    pts = np.array(list(itertools.product(*[range(n) for n in mesh])))
+    kint = pts[np.random.default_rng(seed).permutation(len(pts))]
+
+    def body(rec):
+        rec.witness = lambda env: dict(test="object", lattice=name, mesh=list(mesh), seed=seed, kmesh_tol=env.val(kt))
+        try:
+            obj = BK.BKVectors.from_kpoints(recip_lattice=rl.copy(), mp_grid=np.array(mesh), kpoints_red=kint / np.array(mesh)[None, :], kmesh_tol=kt)
+        except RuntimeError as e:
+            if "Could not find a complete set" in str(e):
+                rec.concrete("find_bk_vectors finds b-vectors on a standard lattice that has a complete shell set in the search box", False, detail=str(e)[:100],
+                             key="find_bk_vectors: no b-vectors found although a complete shell set exists")
+                return
+            raise
+        msgs = judge_object(mesh, rl, np.asarray(obj.kpt_grid), obj.wk, obj.bk_cart, obj.bk_grid, obj.G, obj.neighbours)
+        rec.concrete("BKVectors object: sum_b w_b b b^T = 1 with its own bk_cart/wk, bk_cart = bk_grid.(recip_lattice/mp per axis), whole shells, b->-b closure, k+b = k_nb+G",
+                     not msgs, detail="; ".join(msgs[:3]), key="BKVectors object violates completeness / bk_cart image / closure / neighbour identity")
+    rec.explore(body, ass, max_forks=400000)
+
+
+# ------------------------------------------------------------------------------------------------------------
 def cases(tier, seed):
     q = tier == "quick"
     out = []
@@ -547,6 +623,11 @@ def cases(tier, seed):
     for name in LATTICES:
         for mesh in [(1, 1, 1), (2, 2, 2), (2, 2, 1) if name in ("sc", "hex", "ortho") else (3, 2, 1)] + ([] if q else [(3, 3, 3), (4, 4, 2)]):
             out.append(Case(f"shells lattice={name} mesh={mesh} symbolic kmesh_tol", case_shells, dict(name=name, mesh=mesh), timeout=1500))
+    for mesh in [(2, 3, 4), (3, 1, 2)] + ([] if q else [(1, 1, 1), (4, 2, 3)]):
+        out.append(Case(f"object: BKVectors.__init__ on a symbolic reciprocal lattice, mesh={mesh}", case_object_symbolic_lattice, dict(mesh=mesh, seed=seed), timeout=900))
+    for name, mesh in [("mono", (2, 3, 4)), ("tric", (2, 3, 4)), ("hex", (2, 3, 4)), ("fcc", (3, 2, 2)), ("bcc", (2, 2, 3)), ("mono", (3, 3, 2))] + \
+            ([] if q else [("tric", (4, 3, 2)), ("hex", (3, 2, 5)), ("sc", (2, 3, 4)), ("ortho", (4, 2, 3)), ("mono", (5, 5, 7))]):
+        out.append(Case(f"object: BKVectors.from_kpoints lattice={name} anisotropic mesh={mesh} symbolic kmesh_tol", case_object, dict(name=name, mesh=mesh, seed=seed), timeout=1500))
     return out
 
 
@@ -614,4 +695,29 @@ def replay(rec):
             return True, f"lattice={w['lattice']} mesh={mesh} kmesh_tol={kt}: {str(e)[:80]} although a complete set of independent shells exists in the search box"
         msgs = check_shell_structure(mesh, rl, wk, bk_cart, bk_grid, [2 * m for m in mesh])
         return bool(msgs), f"lattice={w['lattice']} mesh={mesh} kmesh_tol={kt}: " + "; ".join(msgs[:3])
+    if w["test"] == "object-sym":
+        mesh = tuple(w["mesh"])
+        bg = np.array(w["bk_grid"])
+        L, wk = np.array(w["L"], dtype=float), np.array(w["w"], dtype=float)
+        if np.abs(L).max() == 0:
+            L = LATTICES["tric"].copy()
+        kg, G, nb = concrete_neighbour_data(mesh, bg, w["seed"])
+        with contextlib.redirect_stdout(buf):
+            obj = BK.BKVectors(recip_lattice=L, mp_grid=np.array(mesh), wk=wk, bk_grid=bg, G=G, neighbours=nb, kpt_grid=kg)
+        err = np.abs(obj.bk_cart - bg @ (L / np.array(mesh)[:, None])).max()
+        return bool(err > 1e-9 * (1 + np.abs(L).max()) or not np.allclose(obj.wk, wk)), f"mesh={mesh} recip_lattice={L.tolist()}: max|bk_cart - bk_grid.(recip_lattice/mp)|={err:.3g}"
+    if w["test"] == "object":
+        rl = LATTICES[w["lattice"]]
+        mesh = tuple(w["mesh"])
+        kt = w["kmesh_tol"] or 1e-7
+        pts = np.array(list(itertools.product(*[range(n) for n in mesh])))
+        kint = pts[np.random.default_rng(w["seed"]).permutation(len(pts))]
+        try:
+            with contextlib.redirect_stdout(buf):
+                obj = BK.BKVectors.from_kpoints(recip_lattice=rl.copy(), mp_grid=np.array(mesh), kpoints_red=kint / np.array(mesh)[None, :], kmesh_tol=kt)
+        except RuntimeError as e:
+            concrete_shells(w["lattice"], mesh, 0)
+            return True, f"lattice={w['lattice']} mesh={mesh}: {str(e)[:80]}"
+        msgs = judge_object(mesh, rl, obj.kpt_grid, obj.wk, obj.bk_cart, obj.bk_grid, obj.G, obj.neighbours)
+        return bool(msgs), f"BKVectors.from_kpoints lattice={w['lattice']} mesh={mesh} kmesh_tol={kt}: " + "; ".join(msgs[:3])
     raise ValueError(w["test"])
